@@ -419,3 +419,7 @@ mod tests {
         );
     }
 }
+
+#[cfg(kani)]
+#[path = "/verif/kani/arrow-buffer/buffer/scalar.rs"]
+mod verif_kani;
